@@ -24,7 +24,8 @@ ASSUMPTIONS = ["reference encoders in pyprops/ref_encoders.py are the reading of
 ADDRS = [0x0, 0x100, 0xfff0, 0x12344]
 NUM = re.compile(r"(?<![A-Za-z_$.0-9])(0x[0-9a-fA-F]+|[0-9]+)(?![A-Za-z_0-9.])")
 BOUND = [0, 1, 2, 7, 8, 15, 16, 31, 32, 63, 127, 128, 255, 256, 511, 1023, 2047, 2048, 4095, 4096, 32767, 32768,
-         65535, 65536, 0xfffff, 0x100000, 0x7fffffff]
+         65535, 65536, 0xfffff, 0x100000, 0x7fffffff,
+         -1, -2, -8, -15, -16, -17, -32, -33, -64, -127, -128, -129, -256, -2048, -2049, -32768, -32769]
 
 
 def shape_of(text):
@@ -231,14 +232,15 @@ def run(tier, seed, shard, nshards):
         # ---- (c): disassembler renderings over enumerated patterns (shared scan with C07)
         mine = [c for i, c in enumerate(cpus) if i % nshards == shard]
         for c in mine:
-            for v in c07.scan(w, s, c["name"], tier, ("c01_walk", "c01_refix"), known, PROP, survey, c["align"]):
+            for v in c07.scan(w, s, c["name"], tier, ("c01_walk", "c01_refix"), known, PROP, survey, c["align"],
+                              deep=(c["unit"] == 1 and c["align"] == 1)):
                 v["engine"] = "c01"
                 v["mode"] = "scan"
                 s.violations.append(v)
         # ---- (a)+(b): corpus lines and operand mutants
         rnd = random.Random(shard_seed(seed, shard, "c01"))
         corp = [c for i, c in enumerate(sorted(progs.CPU_FILES)) if i % nshards == shard]
-        nmut = 6 if tier == "quick" else 40
+        nmut = 8 if tier == "quick" else 40
         nrel = 3 if tier == "quick" else 24
         try:
             for cpu in corp:
@@ -255,7 +257,8 @@ def run(tier, seed, shard, nshards):
                     for _ in range(min(nmut, 4 * len(holes))):
                         sp = rnd_num.choice(holes)
                         v = rnd_num.choice(BOUND)
-                        variants.append((t[:sp[0]] + ("0x%x" % v if rnd_num.random() < 0.5 else str(v)) + t[sp[1]:],
+                        hexsp = rnd_num.random() < 0.5
+                        variants.append((t[:sp[0]] + (("-0x%x" % -v if v < 0 else "0x%x" % v) if hexsp else str(v)) + t[sp[1]:],
                                          rnd_num.choice(ADDRS)))
                     # PC-relative boundary targets: the same holes filled with address + boundary offset
                     rnd_rel = random.Random(hseed ^ 0x9e3779b9)
